@@ -345,7 +345,7 @@ def _is_nontrivial_case(case: dict) -> bool:
 
 def _part_b(ctx, tier: str, seed: int) -> List[dict]:
     t0 = time.time()
-    count = 1500 if tier == "quick" else 12000
+    count = 2000 if tier == "quick" else 15000
     cases = _gen_cases(seed, count)
     results = pmap(_check_case, cases)
     evaluations = sum(r[0] for r in results)
@@ -354,8 +354,14 @@ def _part_b(ctx, tier: str, seed: int) -> List[dict]:
     for f in fails:
         by_clause.setdefault(f["clause"], []).append(f)
     for clause, fs in sorted(by_clause.items()):
-        fs.sort(key=lambda f: (len(f["expression"]), f["expression"]))
-        for j, f in enumerate(fs[:MAXV]):
+        fs.sort(key=lambda f: (len(f["expression"]), f["expression"], f["resolve_packages"], f["replace_time_conditions"]))
+        uniq_fs, seen_sig = [], set()
+        for f in fs:
+            sig = (f["expression"], f["resolve_packages"], f["replace_time_conditions"])
+            if sig not in seen_sig:
+                seen_sig.add(sig)
+                uniq_fs.append(f)
+        for j, f in enumerate(uniq_fs[:MAXV]):
             ctx.violation(obligation=f"bounded/{clause}/{j}",
                           message=f"{clause}: {f['expression']!r} (resolve_packages={f['resolve_packages']}, "
                                   f"replace_time_conditions={f['replace_time_conditions']}): observed {f['observed']}, expected {f['expected']}",
